@@ -339,13 +339,22 @@ end project
 section tile
 variable {α : Type} [Field α] [LinearOrder α] [IsStrictOrderedRing α]
 
+/-- `P ∘ G` returns the ONE point `c` to within `ε` on both axes.  A pointwise hypothesis: the real
+    `toPlanar ∘ toGeo` satisfies it at the pixel centres it is used at, but NOT at every point
+    (beyond ±0.9999 `toPlanar` clamps and is off by more than half a world). -/
+def CloseAt (P G : Pt α → Pt α) (ε : α) (c : Pt α) : Prop :=
+  |(P (G c)).x - c.x| ≤ ε ∧ |(P (G c)).y - c.y| ≤ ε
+
+theorem closeAt_of_eq (P G : Pt α → Pt α) (c : Pt α) (h : P (G c) = c) : CloseAt P G 0 c := by
+  simp [CloseAt, h]
+
 theorem tile_roundtrip_margin' (floor : α → α)
     (hfloor : ∀ (x : α) (n : ℤ), (n : α) ≤ x → x < (n : α) + 1 → floor x = (n : α))
-    (P G : Pt α → Pt α) (ε : α) (hε : ε < 1 / 2)
-    (hPG : ∀ u, |(P (G u)).x - u.x| ≤ ε ∧ |(P (G u)).y - u.y| ≤ ε) (mx my i j : ℤ) :
+    (P G : Pt α → Pt α) (ε : α) (hε : ε < 1 / 2) (mx my i j : ℤ)
+    (hPG : CloseAt P G ε ⟨(i : α) + mx + 1 / 2, (j : α) + my + 1 / 2⟩) :
     (pow2Proj floor P G (mx : α) (my : α)).toTile ((pow2Proj floor P G (mx : α) (my : α)).toWGS84 ⟨(i : α), (j : α)⟩)
       = ⟨(i : α), (j : α)⟩ := by
-  obtain ⟨hx, hy⟩ := hPG ⟨(i : α) + mx + 1 / 2, (j : α) + my + 1 / 2⟩
+  obtain ⟨hx, hy⟩ := hPG
   rw [abs_le] at hx hy
   simp only at hx hy
   simp only [pow2Proj, Pt.mk.injEq]
@@ -368,21 +377,44 @@ theorem tile_roundtrip_nonpow2_exact' (floor : α → α)
 
 theorem tile_roundtrip_nonpow2_no_margin' (floor : α → α)
     (hfloor : ∀ (x : α) (n : ℤ), (n : α) ≤ x → x < (n : α) + 1 → floor x = (n : α))
-    (P G : Pt α → Pt α) (δ : α) (hδ : 0 < δ) (minx miny e : α) (he : 0 < e) (hδe : δ * e ≤ 1)
-    (hPG : ∀ u, P (G u) = ⟨u.x - δ, u.y - δ⟩) (i j : ℤ) :
+    (P G : Pt α → Pt α) (minx miny e : α) (he : 0 < e) (i j : ℤ) (δx δy : α)
+    (hδx : 0 < δx) (hδxe : δx * e ≤ 1) (hδy : 0 < δy) (hδye : δy * e ≤ 1)
+    (hx : (P (G ⟨(i : α) / e + minx, (j : α) / e + miny⟩)).x = (i : α) / e + minx - δx)
+    (hy : (P (G ⟨(i : α) / e + minx, (j : α) / e + miny⟩)).y = (j : α) / e + miny - δy) :
     (nonPow2ProjUnfixed floor P G minx miny e).toTile ((nonPow2ProjUnfixed floor P G minx miny e).toWGS84 ⟨(i : α), (j : α)⟩)
       = ⟨(i : α) - 1, (j : α) - 1⟩ := by
   have he' : e ≠ 0 := ne_of_gt he
-  have hpos : 0 < δ * e := mul_pos hδ he
-  simp only [nonPow2ProjUnfixed, hPG, Pt.mk.injEq]
-  have h1 : ((i : α) / e + minx - δ - minx) * e = i - δ * e := by field_simp; ring
-  have h2 : ((j : α) / e + miny - δ - miny) * e = j - δ * e := by field_simp; ring
+  have hpx : 0 < δx * e := mul_pos hδx he
+  have hpy : 0 < δy * e := mul_pos hδy he
+  simp only [nonPow2ProjUnfixed, hx, hy, Pt.mk.injEq]
+  have h1 : ((i : α) / e + minx - δx - minx) * e = i - δx * e := by field_simp; ring
+  have h2 : ((j : α) / e + miny - δy - miny) * e = j - δy * e := by field_simp; ring
   rw [h1, h2]
   constructor
-  · have := hfloor ((i : α) - δ * e) (i - 1) (by push_cast; linarith) (by push_cast; linarith)
+  · have := hfloor ((i : α) - δx * e) (i - 1) (by push_cast; linarith) (by push_cast; linarith)
     rw [this]; push_cast; ring
-  · have := hfloor ((j : α) - δ * e) (j - 1) (by push_cast; linarith) (by push_cast; linarith)
+  · have := hfloor ((j : α) - δy * e) (j - 1) (by push_cast; linarith) (by push_cast; linarith)
     rw [this]; push_cast; ring
+
+/-- per axis: an x error alone loses the column and keeps the row (and vice versa by symmetry of the code) -/
+theorem tile_roundtrip_nonpow2_no_margin_x' (floor : α → α)
+    (hfloor : ∀ (x : α) (n : ℤ), (n : α) ≤ x → x < (n : α) + 1 → floor x = (n : α))
+    (P G : Pt α → Pt α) (minx miny e : α) (he : 0 < e) (i j : ℤ) (δx : α)
+    (hδx : 0 < δx) (hδxe : δx * e ≤ 1)
+    (hx : (P (G ⟨(i : α) / e + minx, (j : α) / e + miny⟩)).x = (i : α) / e + minx - δx)
+    (hy : (P (G ⟨(i : α) / e + minx, (j : α) / e + miny⟩)).y = (j : α) / e + miny) :
+    (nonPow2ProjUnfixed floor P G minx miny e).toTile ((nonPow2ProjUnfixed floor P G minx miny e).toWGS84 ⟨(i : α), (j : α)⟩)
+      = ⟨(i : α) - 1, (j : α)⟩ := by
+  have he' : e ≠ 0 := ne_of_gt he
+  have hpx : 0 < δx * e := mul_pos hδx he
+  simp only [nonPow2ProjUnfixed, hx, hy, Pt.mk.injEq]
+  have h1 : ((i : α) / e + minx - δx - minx) * e = i - δx * e := by field_simp; ring
+  have h2 : ((j : α) / e + miny - miny) * e = j := by field_simp; ring
+  rw [h1, h2]
+  constructor
+  · have := hfloor ((i : α) - δx * e) (i - 1) (by push_cast; linarith) (by push_cast; linarith)
+    rw [this]; push_cast; ring
+  · apply hfloor <;> linarith
 
 theorem tile_roundtrip_nonpow2_witness' :
     (nonPow2ProjUnfixed ratFloor (fun u => ⟨u.x - 1 / 1000000000, u.y - 1 / 1000000000⟩) id 3 2 1000).toTile
@@ -403,12 +435,12 @@ theorem tile_roundtrip_nonpow2_witness' :
 
 theorem tile_roundtrip_nonpow2_fixed_margin' (floor : α → α)
     (hfloor : ∀ (x : α) (n : ℤ), (n : α) ≤ x → x < (n : α) + 1 → floor x = (n : α))
-    (P G : Pt α → Pt α) (ε : α) (minx miny e : α) (he : 0 < e) (hε : ε * e < 1 / 2)
-    (hPG : ∀ u, |(P (G u)).x - u.x| ≤ ε ∧ |(P (G u)).y - u.y| ≤ ε) (i j : ℤ) :
+    (P G : Pt α → Pt α) (ε : α) (minx miny e : α) (he : 0 < e) (hε : ε * e < 1 / 2) (i j : ℤ)
+    (hPG : CloseAt P G ε ⟨((i : α) + 1 / 2) / e + minx, ((j : α) + 1 / 2) / e + miny⟩) :
     (nonPow2Proj floor P G minx miny e).toTile ((nonPow2Proj floor P G minx miny e).toWGS84 ⟨(i : α), (j : α)⟩)
       = ⟨(i : α), (j : α)⟩ := by
   have he' : e ≠ 0 := ne_of_gt he
-  obtain ⟨hx, hy⟩ := hPG ⟨((i : α) + 1 / 2) / e + minx, ((j : α) + 1 / 2) / e + miny⟩
+  obtain ⟨hx, hy⟩ := hPG
   rw [abs_le] at hx hy
   simp only at hx hy
   simp only [nonPow2Proj, Pt.mk.injEq]
